@@ -112,7 +112,7 @@ imb_aes_gmac_update_256_vaes_avx512:
 	vmovdqu64	[arg2 + AadHash], xmm0	; ctx_data.aad hash = aad_hash
 
 %ifdef SAFE_DATA
-        clear_zmms_avx512 xmm3, xmm4, xmm5, xmm6, xmm19, xmm9
+        clear_zmms_avx512 xmm3, xmm4, xmm5, xmm6, xmm15, xmm16, xmm19, xmm9
 %endif
 
 .no_full_blocks:
